@@ -8,6 +8,11 @@ import vlib
 def run(ctx):
     fam = os.path.join(vlib.SPECS, "EquivCache", "collisions.json")
     scen = ctx.gen("EquivCache", "MC_EquivCache.tla", "MC_quick.cfg" if ctx.quick else "MC_thorough.cfg", "graphs", workers=4, env={"COLLISIONS": fam}, timeout=2400)
+    if not ctx.quick:   # all graphs on five variables, one query each (with and without a shared component)
+        deep = ctx.gen("EquivCache", "MC_EquivCache.tla", "MC_deep.cfg", "graphs5", workers=8, env={"COLLISIONS": fam}, timeout=3000, heap="12g")
+        with open(scen, "a") as f:
+            for line in open(deep):
+                f.write(line)
     # the committed colliding family (constructed from the specification's key formula, re-verified by TLC in the run above
     # and again on the trace): four real Variable objects at those addresses, a-b equivalent, c-d not, both query orders
     with open(scen, "a") as f:
@@ -21,6 +26,6 @@ def run(ctx):
     ctx.validate("EquivCache", "Trace_EquivCache.tla", "Trace_EquivCache.cfg", trace, "equivcache", parallel=8)
     ctx.cov["distinct_nontrivial"] = ctx.cov["traces_validated_against_impl"]
     ctx.finish("model_checking",
-               "all connection graphs on %d variables x all sequences of 2 areEquivalentVariables queries (each repeated as hasEquivalentVariable(v, true)) on real objects, answers compared by TLC with reachability; "
+               "all connection graphs on %d variables (thorough: also all graphs on 5 variables), each also with the first and last variable sharing a component, x all sequences of 2 areEquivalentVariables queries (each repeated as hasEquivalentVariable(v, true)) on real objects, answers compared by TLC with reachability; "
                "plus 6 address quadruples that collide under the modelled 64-bit Cantor key (verified by TLC on 8-bit limbs) and 7 quadruples related by equal low 32/16 bits, equal sum, equal xor, equal high half or a page shift, with real Variable objects placed at those addresses by the executor's allocator, six query orders" % (3 if ctx.quick else 4),
                ["addresses are chosen through the executor's operator new (no hook in the library needed)", "the collision family is constructed from the specification's formula by bin/mk-collisions and committed"])
